@@ -56,6 +56,9 @@ func main() {
 		core.KnownPath = filepath.Join(*verif, "known_findings.json")
 		if _, err := os.Stat(core.KnownPath); err != nil {
 			core.KnownPath = filepath.Join(home, "known_findings.json")
+			if _, err := os.Stat(core.KnownPath); err != nil {
+				core.KnownPath = "/verif/known_findings.json"
+			}
 		}
 	}
 	if *explain != "" {
